@@ -1,4 +1,4 @@
-use std::{fmt, marker::PhantomData};
+use std::{convert::TryFrom, fmt, marker::PhantomData};
 
 /// An unique index in the storage array that a token points to.
 ///
@@ -68,7 +68,8 @@ impl<T> Storage<T> {
     ///
     /// The value is not linked to any SPIR-V module.
     pub fn append(&mut self, value: T) -> Token<T> {
-        let index = self.data.len() as Index;
+        let index = Index::try_from(self.data.len())
+            .expect("Storage is full: every token index is already in use");
         self.data.push(value);
         Token::new(index)
     }
